@@ -304,6 +304,46 @@ def run(repo: Repo, tier: str) -> Report:
            "" if ok else "a back-substitution store precedes a forward store, or row m-1 is substituted after the loop",
            "backward sweep")
 
+    # --- straight-line discipline: no branch, no early exit, no reassignment of the inputs, fresh distinct work arrays
+    branches = [n for n in ast.walk(fn) if isinstance(n, (ast.If, ast.While, ast.Try, ast.IfExp, ast.With, ast.Break, ast.Continue, ast.Raise))]
+    rep.ob("R-STRAIGHT", FILE, "ws2d", "the solver has no data- or parameter-dependent branch (one algorithm for every input)", not branches,
+           f"`{norm_stmt(branches[0])}` special-cases some inputs: the result is no longer the solution of (W + lambda D'D) z = W y for all of them" if branches else "",
+           branches[0] if branches else "ws2d: control flow")
+    reassigned = [n for n in ast.walk(fn) if isinstance(n, ast.Name) and isinstance(n.ctx, ast.Store) and n.id in params]
+    rep.ob("R-STRAIGHT", FILE, "ws2d", "y, lambda and w are used as passed (never reassigned)", not reassigned,
+           f"parameter `{reassigned[0].id}` is reassigned at line {reassigned[0].lineno}" if reassigned else "", "ws2d: parameters")
+    inv = {v: k for k, v in names.items()}
+    allocs = {}
+    for st_ in fn.body:
+        if isinstance(st_, ast.Assign) and isinstance(st_.targets[0], ast.Name) and st_.targets[0].id in inv.values():
+            allocs.setdefault(st_.targets[0].id, []).append(st_)
+    nsym = None
+    for st_ in fn.body:
+        if isinstance(st_, ast.Assign) and isinstance(st_.targets[0], ast.Name) and ast.unparse(st_.value) in (f"{params[0]}.shape[0]", f"len({params[0]})", f"{params[0]}.size"):
+            nsym = st_.targets[0].id
+    fresh_ok = True
+    detail = []
+    zero_src = None
+    for role in ("z", "d", "c", "e"):
+        nm = inv.get(role)
+        sts = allocs.get(nm, [])
+        if len(sts) != 1:
+            fresh_ok = False
+            detail.append(f"{role}: {len(sts)} allocations")
+            continue
+        v = ast.unparse(sts[0].value)
+        fresh = v in (f"zeros({nsym})", f"np.zeros({nsym})", f"zeros({nsym}, dtype=float64)", f"np.zeros({nsym}, dtype=float64)",
+                      f"np.zeros({nsym}, dtype=np.float64)", f"zeros_like({params[0]})", f"np.zeros_like({params[0]})")
+        copy_of_zero = zero_src is not None and v in (f"{zero_src}.copy()", f"np.copy({zero_src})") and sts[0].lineno < min(
+            [s_.line for s_ in sc.stores] or [10 ** 9])
+        if fresh and zero_src is None:
+            zero_src = nm
+        if not (fresh or copy_of_zero):
+            fresh_ok = False
+            detail.append(f"{role} = {v}")
+    rep.ob("R-STRAIGHT", FILE, "ws2d", "the four work arrays are distinct fresh float64 zero arrays of the series length", fresh_ok,
+           "; ".join(detail) + ": aliased or narrower work arrays corrupt the factorisation", "ws2d: allocations of z, d, c, e")
+
     # result
     ret = sc.returns[0]
     rep.ob("R-RESULT", FILE, "ws2d", "returns the solution array", names.get(ast.unparse(ret.value)) == "z",
